@@ -733,6 +733,10 @@ impl SendBuf {
     // 通过传输层接收到的对方的ack帧，确认某些包已经被接收到，这些包携带的数据即被确认。
     // ack只能确认Flighting/Lost状态的区间；如果确认的是Lost区间，意味着之前的判定丢包是错误的。
     pub fn on_data_acked(&mut self, range: &Range<u64>) {
+        // Only data sent since the last `forget_sent_state` can be acknowledged: a frame of a
+        // rejected 0-RTT packet is still in the sent journal, but the data it carried is pending
+        // again (the server discarded it) and must be sent anew.
+        let range = &(range.start..range.end.min(self.sent()));
         // An empty range (a FIN-only STREAM frame) carries no data: nothing to acknowledge.
         if range.is_empty() {
             return;
@@ -765,6 +769,9 @@ impl SendBuf {
     // 通过传输层收到的ack帧，判定有些数据包丢失，因为它之后的数据包都被确认了，
     // 或者距离发送该段数据之后相当长一段时间都没收到它的确认。
     pub fn may_loss_data(&mut self, range: &Range<u64>) {
+        // Only data sent since the last `forget_sent_state` can be lost: the pending part of the
+        // range (a frame of a rejected 0-RTT packet) will be sent as fresh data anyway.
+        let range = &(range.start..range.end.min(self.sent()));
         // An empty range (a FIN-only STREAM frame) carries no data: nothing can be lost.
         if range.is_empty() {
             return;
@@ -815,7 +822,7 @@ impl SendBuf {
 mod tests {
     use qbase::net::tx::Signals;
 
-    use super::{BufMap, Color, State};
+    use super::{BufMap, Color, SendBuf, State};
 
     #[test]
     fn test_state() {
@@ -1318,5 +1325,33 @@ mod tests {
 
         buf_map.may_loss(&(0..46));
         assert_eq!(buf_map.0, vec![State::encode(2, Color::Lost)])
+    }
+
+    #[test]
+    fn test_sndbuf_reports_after_forget() {
+        // 0..6 is sent in a 0-RTT packet, then 0-RTT is rejected: the frame stays in the sent journal
+        let mut sndbuf = SendBuf::with_capacity(10);
+        sndbuf.write(bytes::Bytes::from_static(b"0123456789"));
+        assert!(matches!(sndbuf.pick_up(|_| Some(6), 6), Ok((r, true, _)) if r == (0..6)));
+        sndbuf.forget_sent_state();
+        sndbuf.extend(8);
+
+        // neither its loss nor its acknowledgement touches data that is pending again
+        sndbuf.may_loss_data(&(0..6));
+        sndbuf.on_data_acked(&(0..6));
+        assert_eq!(sndbuf.state.0, vec![State::encode(0, Color::Pending)]);
+        assert_eq!((sndbuf.sent(), sndbuf.offset), (0, 0));
+
+        // once a part is sent again, only that part can be lost
+        assert!(matches!(sndbuf.pick_up(|_| Some(3), 3), Ok((r, true, _)) if r == (0..3)));
+        sndbuf.may_loss_data(&(0..6));
+        assert_eq!(
+            sndbuf.state.0,
+            vec![
+                State::encode(0, Color::Lost),
+                State::encode(3, Color::Pending)
+            ]
+        );
+        assert_eq!(sndbuf.sent(), 3);
     }
 }
